@@ -414,7 +414,35 @@ def text_field_state_rule(ctx, rule):
            "at the wrong line", lp.lineno)
 
 
+def single_row_cursor_rule(ctx, rule):
+    """`_deserialize_single` walks the lines of a single-row category with a cursor: a way through the loop that also reads the NEXT line (the
+    value of the item stands on a line of its own) moves the cursor by two, every other way that stays in the loop by one - and every way
+    that stays stores an item (otherwise a line is parsed twice, or skipped)"""
+    from .. import machine
+    f = ctx.src(CIF).func("CIFCategory._deserialize_single")
+    lps = [st for st in f.body if isinstance(st, ast.While)]
+    ctx.need(len(lps) == 1, "the cursor loop of _deserialize_single")
+    lp = lps[0]
+    cur = [x.id for x in ast.walk(lp.test) if isinstance(x, ast.Name) and x.id in machine.assigned_names(lp)]
+    ctx.need(len(cur) == 1, "the cursor of _deserialize_single")
+    cur = cur[0]
+    bad, n_ways = [], 0
+    for w in machine.ways(lp.body, machine.assigned_names(lp)):
+        if w.exit is not None:
+            continue
+        n_ways += 1
+        adv = [u for u in w.updates if u.startswith(f"{cur} += ") or u.startswith(f"{cur} = ")]
+        looks_ahead = any(f"{cur} + 1" in u for u in w.updates if u not in adv)
+        want = f"{cur} += {2 if looks_ahead else 1}"
+        if adv != [want]:
+            bad.append(f"a way that {'also reads the next line' if looks_ahead else 'reads one line'} moves the cursor by {adv or 'nothing'}")
+    ctx.need(n_ways >= 2, "the ways of _deserialize_single that stay in the loop")
+    ctx.ob(rule, CIF, "CIFCategory._deserialize_single", f"{n_ways} ways stay in the loop: cursor += lines read", not bad,
+           "; ".join(bad) + ": the next item is parsed from the wrong line", lp.lineno)
+
+
 def run(ctx):
+    single_row_cursor_rule(ctx, "R1.single-row-cursor")
     text_field_state_rule(ctx, "R1.text-field-state")
     serialized_key_rule(ctx, "R2.element-written-under-its-key")
     # the text flavour is read from and written to text streams, the binary flavour to binary ones - wrappers included
@@ -810,6 +838,8 @@ def run(ctx):
 
 
 MUTANTS = [
+    Mutant("single-row-cursor-short", CIF, "                    raise DeserializationError(f\"Failed to parse line '{line}'\")\n                line_i += 2\n",
+           "                    raise DeserializationError(f\"Failed to parse line '{line}'\")\n                line_i += 1\n", "R1.single-row-cursor"),
     Mutant("text-field-opened-by-content", CIF, "            if not in_multi_line:\n                # Start of multiline value", "            if line != \";\":\n                # Start of multiline value", "R1.text-field-state"),
     Mutant("column-eq-ignores-mask", CIF, "        if self._mask != other._mask:\n            return False\n        return True\n\n\nclass CIFCategory", "        return True\n\n\nclass CIFCategory", "R2.equality-covers-state"),
     Mutant("bcif-data-eq-ignores-encoding", BCIF, "        if self._encoding != other._encoding:\n            return False\n", "", "R2.equality-covers-state"),
